@@ -215,6 +215,12 @@ class AddonMainTask(AddonAsync, metaclass=abc.ABCMeta):
         self._mtask = self._create_monitored_task(
             self._maintask(), is_service=True, name=f"edzed: main task for block {self.name!r}")
 
+    def stop(self) -> None:
+        # the main task ends with stop() even if stop_async() is disabled (stop_timeout <= 0)
+        if self._mtask is not None:
+            self._mtask.cancel()
+        super().stop()
+
     async def stop_async(self) -> None:
         assert self._mtask is not None, f"{self}: start() not called"
         self._mtask.cancel()
